@@ -172,7 +172,7 @@ def flags(repo: Repo) -> List[Ob]:
     obs: List[Ob] = []
     n_calls = 0
     shared_sites = 0
-    for fi in repo.all_functions():
+    for fi in repo.scan_functions():
         if fi.node.name not in FLAG_ACTIONS or fi.cls is None:
             continue
         g_flags = [x for x in FLAG_NAMES if x in fi.params]
